@@ -161,10 +161,11 @@ fn oracle_violations(s: &SchemaD, v: &EntryView) -> Vec<String> {
         Some(c) => c,
         None => return vec!["no-class".into()],
     };
-    if cls.contains(&c_name(EntryClass::Conflict)) || cls.contains(&c_name(EntryClass::Tombstone)) {
+    let recycled = cls.contains(&c_name(EntryClass::Recycled));
+    // conflict entries are exempt only as what they are: recycled, i.e. not live
+    if (cls.contains(&c_name(EntryClass::Conflict)) && recycled) || cls.contains(&c_name(EntryClass::Tombstone)) {
         return out;
     }
-    let recycled = cls.contains(&c_name(EntryClass::Recycled));
     let extensible = cls.contains(&c_name(EntryClass::ExtensibleObject));
     let mut defs = vec![];
     for c in cls {
@@ -1114,7 +1115,7 @@ fn observe(
         let cls = v.classes.clone().unwrap_or_default();
         let state = if cls.contains(&c_name(EntryClass::Tombstone)) {
             "tombstone"
-        } else if cls.contains(&c_name(EntryClass::Conflict)) {
+        } else if cls.contains(&c_name(EntryClass::Conflict)) && cls.contains(&c_name(EntryClass::Recycled)) {
             "conflict"
         } else if cls.contains(&c_name(EntryClass::Recycled)) {
             "recycled"
@@ -1125,8 +1126,8 @@ fn observe(
         if state == "live" && !cls.contains(&c_name(EntryClass::Object)) {
             res.count("live-without-class-object");
         }
-        if v.avas.iter().any(|a| a.3 == 0) {
-            res.count(&format!("empty-valueset:{state}"));
+        for a in v.avas.iter().filter(|a| a.3 == 0) {
+            res.count(&format!("empty-valueset:{state}:{}", a.0));
         }
         if !viol.is_empty() {
             let rule = viol[0].split(':').next().unwrap_or("?").to_string();
@@ -1349,7 +1350,7 @@ fn main() {
         jobs.push((inp["case"].as_u64().expect("case"), kind));
     } else {
         seed = args.seed;
-        for (kind, q, th) in [(Kind::Single, 14, 300), (Kind::Legacy, 16, 320), (Kind::Narrow, 8, 120), (Kind::Pair, 12, 220), (Kind::Upgrade, 6, 100)] {
+        for (kind, q, th) in [(Kind::Single, 10, 110), (Kind::Legacy, 12, 130), (Kind::Narrow, 6, 50), (Kind::Pair, 10, 80), (Kind::Upgrade, 4, 30)] {
             for i in 0..args.cases(q, th) {
                 jobs.push((i, kind));
             }
@@ -1403,7 +1404,7 @@ fn main() {
     if args.replay.is_none() {
         let h = rep.histogram.clone();
         let need = |k: &str| h.iter().filter(|(n, _)| n.starts_with(k)).map(|(_, v)| *v).sum::<u64>();
-        for (k, min) in [("refused:", 10u64), ("op:Create:ok", 50), ("op:Modify:ok", 30), ("op:Delete:ok", 5), ("op:Revive:ok", 1), ("op:Repl:ok", 10), ("schema-reloads-observed", 20), ("op:Raise:ok", 2), ("checked:conflict", 1), ("checked:recycled", 5), ("narrowing-accepted:", 1), ("excluded:narrowing:", 1)] {
+        for (k, min) in [("refused:", 10u64), ("op:Create:ok", 40), ("op:Modify:ok", 25), ("op:Delete:ok", 5), ("op:Revive:ok", 1), ("op:Repl:ok", 10), ("schema-reloads-observed", 20), ("op:Raise:ok", 2), ("checked:conflict", 1), ("checked:recycled", 5), ("narrowing-accepted:", 1), ("excluded:narrowing:", 1)] {
             if need(k) < min {
                 rep.fail(Failure { kind: "generator".into(), class: "coverage-floor".into(), input: json!({"key": k}), expected: format!(">= {min}"), observed: format!("{}", need(k)) });
             }
